@@ -74,7 +74,7 @@ def impl_step(stores, pool, op) -> Any:
     try:
         if k == "mux":
             mux = stores.mux(op[1])
-            return ["obj", uid[id(mux.get_identifiable(op[2]))]]
+            return ["obj", uid.get(id(mux.get_identifiable(op[2])), -1)]       # -1: an object that is in none of this history's stores
         st = stores[op[1]]
         if k == "add":
             st.add(pool[op[2]]); return ["unit"]
@@ -95,7 +95,7 @@ def impl_step(stores, pool, op) -> Any:
         if k == "ior":                    # MutableSet.__ior__
             st |= stores[op[2]]; return ["unit"]
         if k == "get":
-            return ["obj", uid[id(st.get_identifiable(op[2]))]]
+            return ["obj", uid.get(id(st.get_identifiable(op[2])), -1)]
         if k == "get_default":
             r = st.get(op[2])
             return ["none"] if r is None else ["obj", uid[id(r)]]
@@ -356,7 +356,8 @@ def check_sequence(seq) -> Optional[C.Failing]:
             for i in IDS:
                 want = next((ref[j][i] for j in order if i in ref[j]), None)
                 try:
-                    got = next(j for j, p in enumerate(pool) if p is mux.get_identifiable(i))
+                    got_obj = mux.get_identifiable(i)
+                    got = next((j for j, p in enumerate(pool) if p is got_obj), "an object that is in none of the stores")
                 except KeyError:
                     got = None
                 if (mux.get(i) is None) != (want is None):
